@@ -161,11 +161,11 @@ Definition run_op (st : cst) (line : list Z) : cst * list (list Z) :=
   match line with
   | 110 :: bs =>
       if crashed (c_t st) then (st, enc_obs (c_idx st) (c_t st) (zlen (c_pend st))) else
-      let '(t', pend') := run_bytes (wc_of (c_tbl st)) (c_grid st) (clear_io (c_t st)) (c_pend st ++ bs) in
+      let '(t', pend') := hstep (wc_of (c_tbl st)) (c_grid st) (clear_io (c_t st), c_pend st) (HFeed bs) in
       (mkCst t' pend' (c_tbl st) (c_grid st) (c_idx st + 1) [], enc_obs (c_idx st) t' (zlen pend'))
   | 111 :: w :: h :: _ =>
       if crashed (c_t st) then (st, enc_obs (c_idx st) (c_t st) (zlen (c_pend st))) else
-      let t' := resize w h (clear_io (c_t st)) in
+      let t' := fst (hstep (wc_of (c_tbl st)) (c_grid st) (clear_io (c_t st), c_pend st) (HResize w h)) in
       let xt := match c_pend st with 27 :: _ => trLockedRead | _ => 0 end in
       (mkCst t' (c_pend st) (c_tbl st) (c_grid st) (c_idx st + 1) [], enc_obs_x (c_idx st) t' (zlen (c_pend st)) xt)
   | 120 :: r =>     (* one record of an observed state to continue from *)
